@@ -198,7 +198,12 @@ theorem drainSeen_cons (e : Ev) (tr : List Ev) :
     drainSeen (e :: tr) = ((match e with | .drain => true | _ => false) || drainSeen tr) := by
   simp only [drainSeen, List.any_cons]; cases e <;> rfl
 
+theorem wasPopped_cons (e : Ev) (tr : List Ev) (i : Nat) :
+    wasPopped (e :: tr) i = ((match e with | .pop j => j == i | _ => false) || wasPopped tr i) := by
+  simp only [wasPopped, List.any_cons]; cases e <;> rfl
+
 structure InvO3 (cfg : Cfg) (s : St) : Prop where
+  pa : ∀ i, attempt s.loop i → wasPopped s.trace i = true
   att : ∀ i, attempt s.loop i → ∀ x ∈ waiting s.trace, x.1 ≠ i →
           lexle s i x.1 ∨ (s.reqs x.1).arrival + cfg.ttl < s.now ∨ queuedAfterPop s.trace i x.1 = true
   ff : ∀ i, attempt s.loop i → ∀ x ∈ waiting s.trace, x.1 ≠ i → (s.reqs x.1).prio = (s.reqs i).prio →
@@ -207,18 +212,18 @@ structure InvO3 (cfg : Cfg) (s : St) : Prop where
   dc : (isDraining s.loop = true → s.cancelled = true) ∧ (s.cancelled = true → drainSeen s.trace = true)
 
 theorem invO3_init (cfg : Cfg) (t0 : Nat) : InvO3 cfg (St.init t0) := by
-  constructor <;> simp [St.init, attempt, wtodo, isDraining, waiting]
+  constructor <;> simp [St.init, attempt, wtodo, isDraining, waiting, wasPopped]
 
 local macro "o3_auto" : tactic =>
   `(tactic| (constructor <;> (try intro j) <;>
       (try simp only [St.upd, St.emit, St.enq, St.signal, waiting, queuedAfterPop, queuedBefore, wasQueued_cons,
-        wasDone_cons, drainSeen_cons, Bool.or_eq_true, beq_iff_eq, Bool.false_or, Bool.true_or, List.mem_cons]) <;>
+        wasDone_cons, drainSeen_cons, wasPopped_cons, Bool.or_eq_true, beq_iff_eq, Bool.false_or, Bool.true_or, List.mem_cons]) <;>
       grind [attempt, lexle, wtodo, holdsL, holdsW, isReturned, isDraining, freshPc, loopId]))
 
 theorem invO3_watcher (cfg : Cfg) (s : St) (k : Nat) (hA : InvA s) (hT : InvT s) (hH : InvH s) (hO : InvO1 s)
     (hO2 : InvO2 s) (h : InvO3 cfg s) : InvO3 cfg (stepWatcher s k) := by
   have h0 := h
-  obtain ⟨att, ff, w1, dc⟩ := h
+  obtain ⟨pa, att, ff, w1, dc⟩ := h
   have wlt : ∀ x ∈ waiting s.trace, x.1 < s.n ∧ ¬ freshPc (s.reqs x.1).pc ∧ (s.reqs x.1).pc = .parked ∧
       (s.reqs x.1).st ≠ .processed ∧ wasQueued s.trace x.1 = true := fun x hx =>
     let w := hO.w2 x hx; let q := hO.wq x.1 w.1; ⟨q.1, q.2.2.1, w.2.1, w.2.2.1, w.1⟩
@@ -262,7 +267,7 @@ theorem invO3_watcher (cfg : Cfg) (s : St) (k : Nat) (hA : InvA s) (hT : InvT s)
 theorem invO3_loop (cfg : Cfg) (s : St) (k : Nat) (hA : InvA s) (hT : InvT s) (hH : InvH s) (hO : InvO1 s)
     (hO2 : InvO2 s) (h : InvO3 cfg s) : InvO3 cfg (stepLoop cfg s k) := by
   have h0 := h
-  obtain ⟨att, ff, w1, dc⟩ := h
+  obtain ⟨pa, att, ff, w1, dc⟩ := h
   have wlt : ∀ x ∈ waiting s.trace, x.1 < s.n ∧ ¬ freshPc (s.reqs x.1).pc ∧ (s.reqs x.1).pc = .parked ∧
       (s.reqs x.1).st ≠ .processed ∧ wasQueued s.trace x.1 = true := fun x hx =>
     let w := hO.w2 x hx; let q := hO.wq x.1 w.1; ⟨q.1, q.2.2.1, w.2.1, w.2.2.1, w.1⟩
@@ -327,6 +332,10 @@ theorem invO3_loop (cfg : Cfg) (s : St) (k : Nat) (hA : InvA s) (hT : InvT s) (h
           omega
         · exact h
       constructor
+      · intro i hi
+        simp only [St.emit, attempt] at hi ⊢
+        subst hi
+        simp [wasPopped_cons]
       · intro i hi x hx hne
         simp only [St.emit, attempt] at hi hx ⊢
         subst hi
@@ -381,7 +390,7 @@ theorem invO3_loop (cfg : Cfg) (s : St) (k : Nat) (hA : InvA s) (hT : InvT s) (h
 theorem invO3_step (cfg : Cfg) (s : St) (a : Act) (hA : InvA s) (hT : InvT s) (hH : InvH s) (hO : InvO1 s)
     (hO2 : InvO2 s) (h : InvO3 cfg s) : InvO3 cfg (step cfg s a) := by
   have h0 := h
-  obtain ⟨att, ff, w1, dc⟩ := h
+  obtain ⟨pa, att, ff, w1, dc⟩ := h
   have wlt : ∀ x ∈ waiting s.trace, x.1 < s.n ∧ ¬ freshPc (s.reqs x.1).pc ∧ (s.reqs x.1).pc = .parked ∧
       (s.reqs x.1).st ≠ .processed ∧ wasQueued s.trace x.1 = true := fun x hx =>
     let w := hO.w2 x hx; let q := hO.wq x.1 w.1; ⟨q.1, q.2.2.1, w.2.1, w.2.2.1, w.1⟩
